@@ -313,7 +313,29 @@ def run_step(unit) -> UnitResult:
             out = list(step.apply(problem, ev, rep, src, pop, n, 1))
             after = [ind_snap(i, (problem, other)) for i in members]
             container_ok = len(pop) == len(members) and all(x is y for x, y in zip(pop, members))
-            return before, after, members, out, container_ok, len(pop)
+            # ... and what happens to the inputs when the OUTPUT is used as the search loop uses it: the next Population
+            # stamps and evaluates every output individual, and an evaluation for a further problem (nobody but the harness
+            # knows it) is recorded on the outputs only
+            aliasing = []
+            try:
+                from geneticengine.algorithms.gp.population import Population
+                from geneticengine.evaluation.tracker import MultiObjectiveProgressTracker as _MT, SingleObjectiveProgressTracker as _ST
+
+                survivors = [m for m in members if any(m is o for o in out)]
+                meta0 = [tuple(sorted((k, repr(v)) for k, v in m.metadata.items())) for m in members]
+                probe = SingleObjectiveProblem(lambda p: 42.0)
+                SequentialEvaluator().evaluate(probe, [o for o in out if all(o is not m for m in members)])
+                Population(iter(out), (_MT if lexi else _ST)(problem, SequentialEvaluator()), generation=7)
+                for k, m in enumerate(members):
+                    if all(m is not sv for sv in survivors):
+                        meta1 = tuple(sorted((kk, repr(v)) for kk, v in m.metadata.items()))
+                        if meta1 != meta0[k]:
+                            aliasing.append((k, f"metadata {meta0[k]} -> {meta1} although the individual is not part of the output"))
+                        if m.has_fitness(probe):
+                            aliasing.append((k, "carries a fitness for a problem that only output individuals were evaluated for"))
+            except Exception:  # noqa
+                pass
+            return before, after, members, out, container_ok, len(pop), aliasing
 
         st = ExploreStats()
         for ex in explore(run, max_dev=unit["max_dev"], max_execs=unit["max_execs"], horizon=3000, stats=st):
@@ -323,7 +345,12 @@ def run_step(unit) -> UnitResult:
             if ex.exc is not None:
                 r.count("step_raised(other properties' business)")
                 continue
-            before, after, pop, out, container_ok, left = ex.result
+            before, after, pop, out, container_ok, left, aliasing = ex.result
+            for k, what in aliasing[:1]:
+                r.add_violation(Violation(PROP, f"step[{term}].apply", "input-individual-shares-state-with-output", {"term": term, "rep": unit["rep"]},
+                                          {"unit": unit, "choices": list(ex.choices), "individual": k},
+                                          f"{term} on {n} {'evaluated' if unit['evaluated'] else 'fresh'} individuals, output then used by the next population: "
+                                          f"input individual {k} {what}"))
             r.count("step_applications")
             if not container_ok:
                 r.add_violation(Violation(PROP, f"step[{term}].apply", "input-population-container-modified", {"term": term, "rep": unit["rep"]},
